@@ -71,12 +71,18 @@ extern size_t mpt_queue_prepare(MPT_STRUCT(queue) *queue, size_t len)
 	size_t left;
 	
 	if (len > (left = queue->max - queue->len)) {
-		if ((SIZE_MAX-left) < len) {
+		/* size for stored data and request */
+		if ((SIZE_MAX - queue->len) < len) {
 			errno = EOVERFLOW;
 			return 0;
 		}
-		len = (len - left) + queue->max;
+		len += queue->len;
 		
+		/* rounding up must not wrap */
+		if (MPT_align(len) < len) {
+			errno = EOVERFLOW;
+			return 0;
+		}
 		if (!mpt_queue_resize(queue, MPT_align(len))) {
 			return 0;
 		}
